@@ -350,7 +350,11 @@ type preserveAspectRatio struct {
 
 func parsePreserveAspectRatio(s string) (out preserveAspectRatio) {
 	out.xPosition, out.yPosition = "min", "min"
-	aspectRatio := strings.Split(s, " ")
+	// <align> and <meetOrSlice> are separated by white space
+	aspectRatio := strings.Fields(s)
+	if len(aspectRatio) == 0 {
+		aspectRatio = []string{""}
+	}
 	align := aspectRatio[0]
 	if align != "none" && len(align) >= 5 {
 		out.xPosition = strings.ToLower(align[1:4])
